@@ -71,7 +71,7 @@ class Ev:
 
 
 class Prop:
-    __slots__ = ('scope', 'pattern', 'activator', 'terminator', 'trigger', 'behaviour', 'bound')
+    __slots__ = ('scope', 'pattern', 'activator', 'terminator', 'trigger', 'behaviour', 'bound', 'lower')
 
     def __init__(self, p):
         self.scope = p.scope.scope_type.name  # GLOBAL | AFTER | UNTIL | AFTER_UNTIL
@@ -84,6 +84,11 @@ class Prop:
         # the bound exactly as the library stores it (a float number of seconds), no rounding: a copy
         # whose bound differs by a fraction of a millisecond is a different property
         self.bound = None if mt == float('inf') else Fraction(mt) * 1000
+        # `min_time` exists in the data model (API only; the language and its documentation have no
+        # syntax for it). It is read as the lower end of the window [min_time, max_time]. The reading
+        # matters only in so far as a copy that LOSES the field must not pass for the original.
+        lo = getattr(p.pattern, 'min_time', 0.0) or 0.0
+        self.lower = Fraction(lo) * 1000
 
 
 def _bind(env, alt, msg):
@@ -133,16 +138,20 @@ def _within(bound, dt):
     return bound is None or dt <= bound
 
 
+def _in_window(P, dt):
+    return dt >= P.lower and (P.bound is None or dt <= P.bound)
+
+
 def holds_in(P, trace, lo, hi, t0, env):
     pat = P.pattern
     if pat == 'ABSENCE':
         for k in range(lo, hi):
-            if _within(P.bound, trace[k][0] - t0) and P.behaviour.match(trace[k], env):
+            if _in_window(P, trace[k][0] - t0) and P.behaviour.match(trace[k], env):
                 return False
         return True
     if pat == 'EXISTENCE':
         for k in range(lo, hi):
-            if _within(P.bound, trace[k][0] - t0) and P.behaviour.match(trace[k], env):
+            if _in_window(P, trace[k][0] - t0) and P.behaviour.match(trace[k], env):
                 return True
         return False
     if pat == 'RESPONSE':
@@ -155,6 +164,8 @@ def holds_in(P, trace, lo, hi, t0, env):
             for m in range(k + 1, hi):
                 if not _within(P.bound, trace[m][0] - trace[k][0]):
                     break
+                if trace[m][0] - trace[k][0] < P.lower:
+                    continue
                 if P.behaviour.match(trace[m], env2):
                     ok = True
                     break
@@ -170,6 +181,8 @@ def holds_in(P, trace, lo, hi, t0, env):
             for m in range(k + 1, hi):
                 if not _within(P.bound, trace[m][0] - trace[k][0]):
                     break
+                if trace[m][0] - trace[k][0] < P.lower:
+                    continue
                 if P.behaviour.match(trace[m], env2):
                     return False
         return True
@@ -183,6 +196,8 @@ def holds_in(P, trace, lo, hi, t0, env):
             for k in range(m - 1, lo - 1, -1):
                 if not _within(P.bound, trace[m][0] - trace[k][0]):
                     break
+                if trace[m][0] - trace[k][0] < P.lower:
+                    continue
                 if P.trigger.match(trace[k], env2):
                     ok = True
                     break
